@@ -218,8 +218,122 @@ def r20c(ctx, rep):
     rep.floor('R20c', 'lossless codec functions', n, 6)
 
 
+def _val_sig(f, defs, op, depth=0):
+    """structural identity of a usize value: constants, len() of a named buffer, sums; otherwise the defining local.
+    Two operands with equal signatures hold the same value as long as the buffers are not modified in between."""
+    if op[0] == 'k':
+        return ('k', A._const_val(op[1]) if A._const_val(op[1]) is not None else op[1])
+    l, proj = op[1][0], op[1][1]
+    if depth > 10:
+        return ('l', l)
+    d = A.single_def(defs, l)
+    if proj:
+        # (_t.0) of an overflow-checked add
+        if d and d[2] == 'st' and d[3][1][0] == 'bin' and d[3][1][1].endswith('WithOverflow') and proj[0] in ('#0', '0', '.0'):
+            rv = d[3][1]
+            return (rv[1].replace('WithOverflow', ''),) + tuple(sorted([_val_sig(f, defs, rv[2], depth + 1), _val_sig(f, defs, rv[3], depth + 1)], key=repr))
+        return ('p', l, tuple(map(str, proj)))
+    if not d:
+        return ('l', l)
+    if d[2] == 'st':
+        rv = d[3][1]
+        if rv[0] == 'use':
+            return _val_sig(f, defs, rv[1], depth + 1)
+        if rv[0] == 'bin' and rv[1] in ('Add', 'Sub', 'Mul'):
+            a, b = _val_sig(f, defs, rv[2], depth + 1), _val_sig(f, defs, rv[3], depth + 1)
+            return (rv[1],) + (tuple(sorted([a, b], key=repr)) if rv[1] != 'Sub' else (a, b))
+        if rv[0] == 'cast':
+            ops = A.rvalue_operands(rv)
+            if ops:
+                return _val_sig(f, defs, ops[0], depth + 1)
+        return ('l', l)
+    if d[2] == 'call':
+        c = d[3]
+        if re.search(r'::len$', c.resolved) and c.args and c.args[0][0] != 'k':
+            # receiver: a reference to a named buffer
+            base = c.args[0][1][0]
+            bd = A.single_def(defs, base)
+            if bd and bd[2] == 'st' and bd[3][1][0] == 'ref':
+                pl = bd[3][1][1]
+                return ('len', pl[0], tuple(map(str, pl[1])))
+            return ('len', base, ())
+    return ('l', l)
+
+
+def r20d(ctx, rep, cr):
+    rep.rule('R20d', 'the encoder bounds what it announces: in every LengthDelimitedCodec::encode* the value passed to length_prefix (the '
+                     'length the reader will test against its limit) is itself — the same value: same local up to copies, or the same len()/sum expression over the same buffer — compared with '
+                     'max_frame_length on a must-pass edge that implies value <= limit. Bounding a different quantity (the serialized size '
+                     'before the flags byte is added) lets the encoder emit a frame that every reader rejects')
+    n = 0
+    for name, f in sorted(cr.fns.items()):
+        if not re.match(re.escape(FR) + r'LengthDelimitedCodec::encode\w*$', name):
+            continue
+        lp = A.calls_to(f, ('re', r'framing::length_prefix$'))
+        if not lp:
+            continue
+        rep.analysed(f)
+        defs = A.Defs(f)
+        for k, c in enumerate(lp):
+            n += 1
+            want = _val_sig(f, defs, c.args[0])
+            found = None
+            for (a, s_) in A.must_pass_edges(f, c.bb):
+                l = lib.switch_local(f, a)
+                d = A.single_def(defs, l) if l is not None else None
+                if not d or d[2] != 'st' or d[3][1][0] != 'bin' or d[3][1][1] not in ('Gt', 'Lt', 'Ge', 'Le'):
+                    continue
+                rv = d[3][1]
+                t = f.bbs[a]['t']
+                if not all(v == '0' for v, _ in t[2]):
+                    continue
+                taken_true = (s_ == t[3])
+                for vi, li in ((2, 3), (3, 2)):
+                    ls = A.backward_slice(f, [rv[li]], defs)
+                    if not any(x.endswith('LengthDelimitedCodec.max_frame_length') for x in ls.fields):
+                        continue
+                    if _val_sig(f, defs, rv[vi]) == want and implies_le(rv[1], vi == 2, taken_true):
+                        found = (a, rv[1])
+            if found:
+                rep.holds('R20d', f, 'announced length#%d' % k, 'the announced value itself is tested (%s at bb%d)' % (found[1], found[0]))
+            else:
+                rep.violation('R20d', f, 'announced-length-unbounded', f.loc(c.line),
+                              'the length written into the frame header is not the value that was compared with max_frame_length: at the '
+                              'boundary (payload + flags byte = limit + 1) the encoder emits a frame that read_frame rejects as too large')
+    rep.floor('R20d', 'length_prefix calls in encoders', n, 2)
+
+
+DECODER = re.compile(r'(decode|decompress|read_frame|from_bytes|from_raw_bytes|method_from_flags)')
+
+
+def r20e(ctx, rep, cr):
+    rep.rule('R20e', 'decoders reject short input instead of panicking: in every decode / decompress / read_frame function of '
+                     'tensor_chain::tcp and tensor_compress, each bounds-checked index and each range index / split_at on a slice is '
+                     'discharged by a must-pass test on the same buffer (is_empty() false, len compared with a constant, index < len, '
+                     'bound <= len) — an index that is not is a panic on a truncated or corrupted frame')
+    n = 0
+    for crate, pat in ((cr, r'::tcp::'), (ctx.crate('tensor_compress'), r'.')):
+        for name, f in sorted(crate.fns.items()):
+            if not re.search(pat, name) or not DECODER.search(A.parent_fn(name).split('::')[-1]):
+                continue
+            b1, k1 = lib.undischarged_bounds(f)
+            b2, k2 = lib.undischarged_ranges(f)
+            if k1 + k2:
+                rep.analysed(f)
+            n += k1 + k2
+            for j, (bb, line, why) in enumerate(b1 + b2):
+                rep.violation('R20e', f, 'unchecked-index', f.loc(line),
+                              'a decoder indexes its input with no dominating length test (%s): a frame cut short at this point panics the '
+                              'reader instead of returning an error' % why)
+            if (k1 + k2) and not (b1 or b2):
+                rep.holds('R20e', f, 'input indexing', '%d site(s) discharged' % (k1 + k2))
+    rep.floor('R20e', 'index sites in decoders', n, 5)
+
+
 def run(ctx, rep):
     cr = ctx.crate('tensor_chain')
     r20a(ctx, rep, cr)
     r20b(ctx, rep, cr)
     r20c(ctx, rep)
+    r20d(ctx, rep, cr)
+    r20e(ctx, rep, cr)
